@@ -290,3 +290,28 @@ pub(crate) fn param_update_rec<T: Tweenable>(_this: &mut Parameter<T>, dt: f64, 
     }
     r
 }
+
+// @ob id=C06.2f,C17.5c strength=bounded tier=quick timeout=1800 bound="modulator values and mapping on a dyadic grid: identity mapping (0,1)->(0,1), linear easing; modulator value first m1 then m2 from {0, 1/4, 1/2, 3/4, 1}" fn=parameter.rs::Parameter::{update,update_tween,calculate_new_raw_value}
+// @req a parameter tweening (zero or finished duration) towards a target LINKED to a modulator; two updates, the modulator's value changing in between
+// @ens when the tween ends the parameter equals the mapping of the modulator's current value and it is NOT frozen: at the next update it equals the mapping of the modulator's new value (a linked parameter follows its modulator in every chunk); only tweens to fixed targets may go stagnant
+#[kani::proof]
+#[kani::unwind(4)]
+fn c06_2f_tween_to_linked_target_keeps_following() {
+    let pick = |k: u8| match k % 5 { 0 => 0.0f64, 1 => 0.25, 2 => 0.5, 3 => 0.75, _ => 1.0 };
+    let (m1, m2) = (pick(kani::any()), pick(kani::any()));
+    let (info1, _, id1) = mock_info(None, Some(m1));
+    let (info2, _, id2) = mock_info(None, Some(m2));
+    assert!(id1 == id2, "same slot, same id in both snapshots");
+    let mapping = crate::Mapping { input_range: (0.0, 1.0), output_range: (0.0f64, 1.0f64), easing: Easing::Linear };
+    let target = Value::FromModulator { id: id1.unwrap(), mapping };
+    let mut p = Parameter::new(Value::Fixed(0.5f64), 0.0);
+    p.set(target, Tween { start_time: StartTime::Immediate, duration: Duration::ZERO, easing: Easing::Linear });
+    let fin = p.update(0.25, &info1);
+    assert!(fin, "C06.2f: a zero-duration tween finishes at the next update");
+    assert!(p.raw_value == m1, "C17.5c: the linked parameter equals the mapping of the modulator's current value in the same update");
+    assert!(!p.stagnant, "C06.2f: a parameter linked to a modulator never goes stagnant");
+    let fin2 = p.update(0.25, &info2);
+    assert!(!fin2 && p.raw_value == m2 && p.previous_raw_value == m1, "C17.5c: and keeps following the modulator in later chunks");
+    kani::cover!(m1 != m2);
+    core::mem::forget(info1); core::mem::forget(info2);
+}
